@@ -76,7 +76,7 @@ def strat_case(draw, tier, descending=False, min_chans=1):
     eff = n - start if nsamps is None else nsamps
     gulp = draw(st.integers(1, eff + 3))
     return {"layout": lay, "fch1": ch["fch1"], "foff": ch["foff"], "start": start, "nsamps": nsamps, "gulp": gulp,
-            "prior": draw(vs.prior_use(n)),
+            "prior": draw(vs.prior_use(n)), "precursor": draw(st.sampled_from([False, False, True])),
             # sampling interval and start epoch (none on a leap-second day, where a UTC MJD day is 86401 s long)
             "tsamp": draw(st.sampled_from([1e-3, 1e-3, 64e-6, 0.000327, 2.0**-10])),
             "tstart": draw(st.sampled_from([55000.25, 55000.25, 40587.0, 59215.99999, 51544.5, 60000.000011574]))}
@@ -97,6 +97,20 @@ class S:
         self.start, self.nsamps, self.gulp = case["start"], case["nsamps"], case["gulp"]
         self.eff = self.N - self.start if self.nsamps is None else self.nsamps
         self.X = self.D[self.start : self.start + self.eff]
+        if case.get("precursor"):
+            # an earlier file of the same session: same band and start epoch, another sampling interval; the same
+            # sub-range is read and reduced from it first.  Nothing of that may show in this file's products.
+            dpre = os.path.join(self.dir, "pre")
+            os.mkdir(dpre)
+            ppaths, _, _, _ = vs.write_layout(dict(self.lay, data_seed=self.lay["data_seed"] + 5), dpre, fch1=self.fch1, foff=self.foff,
+                                              tsamp=4 * self.tsamp, tstart=self.tstart)
+            pre = FilReader(ppaths)
+            try:
+                pre.read_block(self.start, self.eff)
+                pre.collapse(gulp=self.gulp, start=self.start, nsamps=self.nsamps, quiet=True, description="v")
+                pre.dedisperse(1.0, gulp=self.gulp, start=self.start, nsamps=self.nsamps, quiet=True, description="v")
+            except Exception:  # noqa: BLE001
+                pass
         self.rd = vs.apply_prior_use(FilReader(self.paths), case.get("prior"))
         self.kw = {"gulp": self.gulp, "start": self.start, "nsamps": self.nsamps, "quiet": True, "description": "v"}
         self.labels_in = self.fch1 + np.arange(self.nchans) * self.foff
